@@ -101,7 +101,7 @@ theorem array_is_reference (P : Platform) (f : Nat) (a i : Expr) (line env : Nat
     (hc : checkIndex σ2 (.arr r) iv "Invalid array access. Not an array." = .ok (r, k))
     (v : Val) (hv : (arrOf σ2 r)[k]? = some v) :
     evalE P (f + 1) (.arrayAccess a i line) env repl σ = .ok (v, .none) σ2 := by
-  rw [evalE]; simp only [h0, ha, hi]
+  rw [evalE]; simp only [guardErr, ER.seq, Res.bind, h0, ha, hi]
   simp [hc]
   simp [arrOf] at hv
   simp [hv]
